@@ -17,7 +17,7 @@ ID = "C06"
 LEVEL = "fault_enumeration"
 MIN_OUTCOMES = 3
 MANIFEST = {
-    'text': 'Single-fault enumeration over the rewrite phase: for every project shape (1..3 / 1..5 files, four pattern sets per file incl. partial patterns that do not change with the bump, v2 and legacy, TOML and INI), every order of the configured files (config entry explicit at every position or implicit), a file reached through a glob AND an explicit entry, a glob entry whose files have all been removed, and every fault position (pattern without match, missing file, configured path that is a directory, undecodable file, rejected version: lower, equal or malformed --set-version, bump without change, --set-version of a version that already exists as a tag) the real `update`, `update --dry` and `update` with commit/tag/push (fake git) are executed; with a fault they must exit non-zero, leave every byte unchanged and issue no add/commit/tag/push and no hook; fault-free controls must succeed. Project files differ in line-ending style (CRLF, LF, CR, with and without final newline) and carry non-ASCII text, so a restore that re-encodes them shows.',
+    'text': 'Single-fault enumeration over the rewrite phase: for every project shape (1..3 / 1..5 files, four pattern sets per file incl. partial patterns that do not change with the bump, v2 and legacy, TOML and INI), every order of the configured files (config entry explicit at every position or implicit), a file reached through a glob AND an explicit entry, a glob entry whose files have all been removed, a 5 MiB file / 300 files configured before the faulty one, and every fault position (pattern without match, missing file, configured path that is a directory, undecodable file, rejected version: lower, equal or malformed --set-version, bump without change, --set-version of a version that already exists as a tag) the real `update`, `update --dry` and `update` with commit/tag/push (fake git) are executed; with a fault they must exit non-zero, leave every byte unchanged and issue no add/commit/tag/push and no hook; fault-free controls must succeed. Project files differ in line-ending style (CRLF, LF, CR, with and without final newline) and carry non-ASCII text, so a restore that re-encodes them shows.',
     'note': 'double faults and I/O errors of the write itself (disk full, permissions) are outside the bound',
     'technique': 'exhaustive single-fault enumeration (deviation bound 1) over file orders on the real CLI with a fake VCS seam',
 }
@@ -71,6 +71,7 @@ def explore(tier, seed):
     for engine in sorted(ENGINES):
         for fmt in ("bumpver.toml", "setup.cfg"):
             chunks.append(("@repeated", engine, fmt))
+            chunks.append(("@big", engine, fmt))
     return pool.run_chunks(run_chunk, chunks)
 
 
@@ -169,9 +170,74 @@ def repeated_entry_cases(st, engine, fmt):
                     st.outcomes["refused-cleanly:nomatch:repeated-entry"] += 1
 
 
+def big_first_cases(st, engine, fmt):
+    """A 5 MiB file and 300 small files are configured BEFORE the file that has the fault: nothing may be written early."""
+    E = ENGINES[engine]
+    filler = ("lorem ipsum dolor sit amet " * 40 + "\n") * 5000  # ~5.4 MB
+    for shape in ("one-big-file", "300-files"):
+        for fault in (("nomatch",), ("missing",)):
+            for mode in ("dry", "real", "commit"):
+                files, entries = {}, []
+                if shape == "one-big-file":
+                    files["a_big.txt"] = (filler[: len(filler) // 2] + E["occ"][0] + "\n" + filler[len(filler) // 2:]).encode()
+                    entries.append(("a_big.txt", [E["pats"][0]]))
+                else:
+                    for i in range(300):
+                        files[f"many/f{i:03d}.txt"] = (f"file {i}\n" + E["occ"][0] + "\n").encode()
+                    entries.append(("many/*.txt", [E["pats"][0]]))
+                files["z_last.txt"] = ("header\n" + ("xxx=" + E["old"] if fault == ("nomatch",) else E["occ"][0]) + "\n").encode()
+                entries.append(("z_last.txt", [E["pats"][0]]))
+                files[fmt] = pt.config_text(fmt, E["vp"], E["old"], entries).encode()
+                if fault == ("missing",):
+                    del files["z_last.txt"]
+                world.clear_dir(".")
+                world.write_tree(files)
+                args = ["update", "--no-fetch", "--patch"]
+                fake = None
+                if mode == "dry":
+                    args.append("--dry")
+                if mode == "commit":
+                    os.mkdir(".git")
+                    args += ["--commit", "--tag-commit", "--push"]
+                    fake = fakevcs.install(fakevcs.FakeVCS("git", tags_all=["1.2.1"], status=[]))
+                try:
+                    o = world.cli(*args)
+                finally:
+                    fakevcs.uninstall()
+                st.evaluations += 1
+                st.transitions += 1
+                st.validated += 1
+                after = world.read_tree(".")
+                case = {"engine": engine, "format": fmt, "big_first": shape, "fault": list(fault), "mode": mode}
+                st.nontriv(case)
+                st.state("big-first", engine, fmt, shape, fault, mode)
+                changed = sorted(k for k in set(files) | set(after) if files.get(k) != after.get(k))
+                st.observe((case, o.exit, o.crashed, changed, fake.effect_names() if fake else None))
+                tail = f"{fault[0]}:after-{shape}:{mode}"
+                if o.exit == 0:
+                    st.outcomes["violation"] += 1
+                    st.violation(f"C06:faulted-update-exits-0:{tail}", case, {"log": o.log[-3:]})
+                if changed:
+                    st.outcomes["violation"] += 1
+                    st.violation(f"C06:files-changed-by-failed-update:{tail}", case, {"changed": changed[:5], "count": len(changed), "exit": o.exit})
+                if fake is not None and [e for e in fake.effect_names() if e != "fetch"]:
+                    st.outcomes["violation"] += 1
+                    st.violation(f"C06:vcs-effects-after-failed-rewrite:{tail}", case, {"effects": fake.effect_names()[:6]})
+                if o.exit != 0 and not changed:
+                    st.outcomes[f"refused-cleanly:{fault[0]}:after-big-content"] += 1
+
+
 def run_chunk(chunk):
     import datetime as dt
 
+    if chunk[0] == "@big":
+        st = Stats()
+        world.set_today(dt.date(2033, 3, 3))
+        d = pool.fresh_dir("c06b")
+        os.chdir(d)
+        big_first_cases(st, chunk[1], chunk[2])
+        os.chdir("/")
+        return st
     if chunk[0] == "@repeated":
         st = Stats()
         world.set_today(dt.date(2033, 3, 3))
@@ -290,6 +356,10 @@ def replay(case, st):
     os.chdir(d)
     if case.get("repeated_entry"):
         repeated_entry_cases(st, case["engine"], case["format"])
+        os.chdir("/")
+        return
+    if case.get("big_first"):
+        big_first_cases(st, case["engine"], case["format"])
         os.chdir("/")
         return
     run_one(st, case["engine"], case["format"], case["files"], tuple(case["patterns_per_file"]), tuple(case["order"]),
